@@ -74,6 +74,19 @@ CHECKS = {
              'fractional errors below 1e-2, loose in the float underflow regime), zero/non-zero status exact; kernels themselves are '
              'C02/C03; builders are C11.',
         design='6 C01'),
+    'C05': dict(
+        technique='Coq proof over R (field/lra, Coquelicot FTC, Interval) about acceptance rules, proposal density and priors translated on every run from markov_chain_monte_carlo.py, generic in the proposal density and prior',
+        text='Theorems in coq/Props/C05.v: for EVERY strictly positive proposal density q and non-negative prior, the translated '
+             'Metropolis-Hastings acceptance satisfies prior(x) e^L q(x\'|x) a(x->x\') = prior(x\') e^L\' q(x|x\') a(x\'->x) (zero-prior boundary '
+             'states included) and lies in [0,1]; the translated zero-likelihood branches are 0 and 1; joint states balance as the product; '
+             'the translated jump-up/jump-down acceptances balance with the model priors and the balancing density; the translated '
+             'transition_pdf is the product of truncated Gaussians over exactly the documented bounds and each factor integrates to one '
+             '(FTC); the balancing density equals the density of its draw iff its stored normalisation is the truncation mass, which is '
+             'refuted for the code (known finding, certified numerically by Interval).',
+        note=AX_R + 'Classical_Prop.classic (Coquelicot integrals); primitive-float operations used by the Interval tactic; Phi is a parameter whose '
+             'derivative is the normal density; scipy.stats mapped to phi/Phi by the translator; multi-event loop and dict plumbing are '
+             'covered by the oracle (balance identity evaluated on the implementation with an independent truncated-Gaussian q).',
+        design='6 C05'),
 }
 
 NA_REASON = 'check not built yet (work in progress; see DESIGN.md section 6)'
